@@ -445,6 +445,18 @@ def run_real(case):
                         obs["read_model_error"] = str(e)
             except Exception as e:
                 obs["read"] = _err(e)
+            # the same file through the file-object doors: RecordReader(url, fileobj=...) and the adapter class itself
+            # (binary handles: the adapter sniffs the content, which text handles do not support)
+            from flow.record.adapter.jsonfile import JsonfileReader
+            alt = {}
+            for name, mode, mk in (("url+fileobj(rb)", "rb", lambda fh: RecordReader("jsonfile://", fileobj=fh)),
+                                   ("JsonfileReader(rb)", "rb", lambda fh: JsonfileReader(fh))):
+                try:
+                    with (open(path, "rb") if mode == "rb" else open(path, "r", encoding="utf-8")) as fh:
+                        alt[name] = [V.observe_record(x) for x in mk(fh)]
+                except Exception as e:
+                    alt[name] = _err(e)
+            obs["read_alt"] = alt
     finally:
         shutil.rmtree(d, ignore_errors=True)
     return obs
@@ -599,6 +611,13 @@ def oracle(case, obs):
                     if not _obs_matches_scalar(b[3][pos], sc[0], sc[1]):
                         return (f"fallback record {k}: field {kk} holds {b[3][pos]} but the JSON scalar written is "
                                 f"{sc}")[:300]
+    if case["indent"] is None:
+        for name, got in sorted(obs.get("read_alt", {}).items()):
+            if isinstance(got, dict):
+                return f"reading the file back through {name} raised {got['error']}: {got['msg']}"
+            if _norm_obs(got) != _norm_obs(obs["read"]):
+                return (f"reading the file back through {name} gives {len(got)} records that differ from the "
+                        f"{len(obs['read'])} read through the URL")
     # strict JSON last, so that the recorded NaN/Infinity finding can never hide another failure
     for i, s in enumerate(obs["strict"]):
         if s is not True:
